@@ -2,8 +2,12 @@ package main
 
 // cross-check wiring that would otherwise create import cycles
 import (
+	"verifmc/checks/c10"
 	"verifmc/checks/c11"
 	"verifmc/checks/c16"
 )
 
-func init() { c11.SetSchedPart(c16.SchedBuffers("C11")) }
+func init() {
+	c11.SetSchedPart(c16.SchedBuffers("C11"))
+	c16.SetRefreshDeadlock(c10.RefreshDeadlock)
+}
